@@ -616,7 +616,7 @@ def check_internal_order(ctx, lib):
             elif k == "String":
                 want = [{"String::cmp(self, other)"}]
             elif k == "Number":
-                want = [{"partial_cmp(self, other) or Less"}, {"partial_cmp(self, other) or Less", "Equal"}]
+                want = [{"partial_cmp(self, other) or Less"}]
             else:
                 want = [{"Equal"}]
             if same:
